@@ -4,6 +4,9 @@ package main
 
 import (
 	"crypto/sha256"
+	"runtime/debug"
+	"runtime/pprof"
+	"go/types"
 	"encoding/json"
 	"flag"
 	"fmt"
@@ -87,7 +90,16 @@ func main() {
 		noReplay  = flag.Bool("noreplay", false, "skip native replay")
 		smtlog    = flag.String("smtlog", "", "write SMT log of first worker")
 	)
+	cpuprof := flag.String("cpuprofile", "", "write cpu profile")
 	flag.Parse()
+	// the loaded SSA program is a large, long-lived heap: collecting less often roughly halves CPU time
+	debug.SetGCPercent(1500)
+	debug.SetMemoryLimit(40 << 30)
+	if *cpuprof != "" {
+		f, _ := os.Create(*cpuprof)
+		pprof.StartCPUProfile(f)
+		defer pprof.StopCPUProfile()
+	}
 	t0 := time.Now()
 	var cfg checkCfg
 	data, err := os.ReadFile(*checkFile)
@@ -169,6 +181,8 @@ func main() {
 	prog, _ := ssautil.AllPackages(initial, ssa.InstantiateGenerics)
 	prog.Build()
 	tLoad := time.Since(t0)
+	mapSites, mapSiteNames := enumerateMapRanges(prog)
+	globalSiteNames = mapSiteNames
 
 	// ---- instances ----
 	var insts []instance
@@ -192,6 +206,14 @@ func main() {
 				tc = &h.Quick
 			}
 		}
+		if auto, ok := tc.Grid["site"]; ok && len(auto) == 1 && auto[0] == -1 {
+			// "site": [-1] = every map-range site of knut's code (enumerated from the SSA on this run)
+			var all []int
+			for i := range mapSiteNames {
+				all = append(all, i)
+			}
+			tc.Grid["site"] = all
+		}
 		for _, params := range expand(tc) {
 			if !matchOnly(*only, params) {
 				continue
@@ -214,7 +236,7 @@ func main() {
 		go func(w int) {
 			defer wg.Done()
 			for j := range jobs {
-				results[j] = runInstance(prog, insts[j], known, *solverK, w == 0 && *smtlog != "", *smtlog)
+				results[j] = runInstance(prog, insts[j], known, *solverK, w == 0 && *smtlog != "", *smtlog, mapSites)
 				mu.Lock()
 				done++
 				if *verbose {
@@ -306,6 +328,7 @@ func main() {
 			fmt.Println("  " + clip(m, 1500))
 		}
 	}
+	pprof.StopCPUProfile()
 	os.Exit(exit)
 }
 
@@ -372,7 +395,56 @@ func expand(tc *tierCfg) []map[string]int {
 	return cur
 }
 
-func runInstance(prog *ssa.Program, inst instance, known map[string]bool, solverKind string, log bool, logPath string) instResult {
+// enumerateMapRanges lists every range-over-map instruction in knut's own code
+// (the complete list of sites where hash-map iteration order can reach an output).
+func enumerateMapRanges(prog *ssa.Program) (map[*ssa.Range]int, []string) {
+	type site struct {
+		r   *ssa.Range
+		pos string
+	}
+	var sites []site
+	for fn := range ssautil.AllFunctions(prog) {
+		if fn.Pkg == nil || !strings.HasPrefix(fn.Pkg.Pkg.Path(), "github.com/sboehler/knut") {
+			if fn.Origin() == nil || fn.Origin().Pkg == nil || !strings.HasPrefix(fn.Origin().Pkg.Pkg.Path(), "github.com/sboehler/knut") {
+				continue
+			}
+		}
+		for _, b := range fn.Blocks {
+			for _, ins := range b.Instrs {
+				r, ok := ins.(*ssa.Range)
+				if !ok {
+					continue
+				}
+				if _, isMap := r.X.Type().Underlying().(*types.Map); !isMap {
+					continue
+				}
+				p := prog.Fset.Position(r.Pos())
+				if strings.Contains(p.Filename, "zz_verif") || strings.Contains(p.Filename, "zzverif") {
+					continue
+				}
+				sites = append(sites, site{r, fmt.Sprintf("%s:%d:%d %s", strings.TrimPrefix(p.Filename, "/repo/"), p.Line, p.Column, fn.String())})
+			}
+		}
+	}
+	sort.Slice(sites, func(i, j int) bool { return sites[i].pos < sites[j].pos })
+	// generic instantiations share a source position: give them the same site index
+	m := map[*ssa.Range]int{}
+	var names []string
+	idx := map[string]int{}
+	for _, s := range sites {
+		key := s.pos[:strings.Index(s.pos, " ")]
+		i, ok := idx[key]
+		if !ok {
+			i = len(names)
+			idx[key] = i
+			names = append(names, s.pos)
+		}
+		m[s.r] = i
+	}
+	return m, names
+}
+
+func runInstance(prog *ssa.Program, inst instance, known map[string]bool, solverKind string, log bool, logPath string, mapSites map[*ssa.Range]int) instResult {
 	tc := sym.NewTermCtx()
 	timeout := inst.tier.SolverTimeoutMs
 	if timeout == 0 {
@@ -402,6 +474,7 @@ func runInstance(prog *ssa.Program, inst instance, known map[string]bool, solver
 	in.TC = tc
 	in.Solver = solver
 	in.Params = inst.params
+	in.MapSites = mapSites
 	if inst.tier.MaxSteps > 0 {
 		in.MaxSteps = inst.tier.MaxSteps
 	}
@@ -450,6 +523,7 @@ type aggT struct {
 	instances                             int
 	sampleParams                          []map[string]int
 	maxInstWall                           float64
+	siteHits                              map[int]int
 }
 
 func (a *aggT) witnessOK() int {
@@ -476,6 +550,12 @@ func aggregate(rs []instResult) *aggT {
 		a.steps += s.Steps
 		if s.Wall.Seconds() > a.maxInstWall {
 			a.maxInstWall = s.Wall.Seconds()
+		}
+		if site, ok := r.inst.params["site"]; ok {
+			if a.siteHits == nil {
+				a.siteHits = map[int]int{}
+			}
+			a.siteHits[site] += s.MapSiteHits
 		}
 		for _, v := range s.Violations {
 			a.violations = append(a.violations, taggedViolation{v, r.inst.fn.Name()})
@@ -792,6 +872,7 @@ func fileHash(p string) string {
 }
 
 var solverName = "z3"
+var globalSiteNames []string
 
 func writeEvidence(verif string, cfg *checkCfg, tier string, seed int, a *aggT, wall time.Duration, confirmed int, repo string) {
 	var funcs []string
@@ -871,11 +952,25 @@ func writeEvidence(verif string, cfg *checkCfg, tier string, seed int, a *aggT, 
 			"path_witnesses_replayed":       len(a.witnesses),
 			"path_witnesses_agreeing":       witnessOK,
 			"repo_tree_hash":                repoHash(repo, funcs),
+			"map_range_sites":               siteReport(a),
 		},
 	}
 	os.MkdirAll(filepath.Join(verif, "evidence"), 0o755)
 	b, _ := json.MarshalIndent(ev, "", " ")
 	os.WriteFile(filepath.Join(verif, "evidence", cfg.Property+".json"), b, 0o644)
+}
+
+// siteReport lists every range-over-map site of knut's code with the number of
+// executions whose iteration order was made nondeterministic in this run.
+func siteReport(a *aggT) []map[string]interface{} {
+	if a.siteHits == nil {
+		return nil
+	}
+	var out []map[string]interface{}
+	for i, n := range globalSiteNames {
+		out = append(out, map[string]interface{}{"site": i, "where": n, "permuted_executions": a.siteHits[i]})
+	}
+	return out
 }
 
 func prefixAll(p string, ss []string) []string {
